@@ -235,7 +235,7 @@ def generate(tier, seed):
     nflip = 120 if tier == "quick" else 30000
     for k in range(nflip):
         cases.append({"kind": "flip", "k": k})
-    nfiles = 90 if tier == "quick" else 6000
+    nfiles = 180 if tier == "quick" else 6000
     for k in range(nfiles):
         cases.append({"kind": "files", "k": k})
     for k in range(1, 13 if tier == "quick" else 41):
@@ -248,9 +248,10 @@ def generate(tier, seed):
     for n in (2, 3, 5, 17, 256, 257) if tier == "quick" else (2, 3, 4, 5, 8, 17, 64, 255, 256, 257, 512, 513):
         for how in ("named", "recursive"):
             cases.append({"kind": "batch", "n": n, "how": how})
+    cases.append({"kind": "names", "k": 0})
     for layout in range(4):
         cases.append({"kind": "conflict", "layout": layout})
-    for k in range(60 if tier == "quick" else 6000):
+    for k in range(200 if tier == "quick" else 6000):
         cases.append({"kind": "values", "k": k})
     return cases
 
@@ -353,6 +354,27 @@ def run_case(case, ctx):
             run_templates(case, ctx, res, root)
         elif kind == "values":
             run_values(case, ctx, res, root)
+        elif kind == "names":
+            # file *names* that are not UTF-8 (Latin-1 bytes from an old archive), ignored by Git
+            k = case["k"]
+            rb = os.fsencode(str(root))
+            if k % 2 == 0:
+                trees.git_init(root)
+                (root / ".gitignore").write_text("*.gen.py\nout/\n")
+                open(rb + b"/caf\xe9.gen.py", "wb").write(b"x = 1\n")
+                os.mkdir(rb + b"/out")
+                open(rb + b"/out/na\xefve.txt", "wb").write(b"y\n")
+            # (covered files with such names are not generated: the statement is about what files contain; the tool cannot
+            # even print their names on a strict UTF-8 stdout - noted in DESIGN.md)
+            fault = "names-not-utf8:git-ignored"
+            for cmd in ("lint", "lint-pool", "spdx", "annotate", "download-all"):
+                r = run_command(cmd, root) if cmd != "annotate" else \
+                    run_cli(["--no-multiprocessing", "--root", str(root), "annotate", "-c", "J", "-l", "MIT", "--fallback-dot-license", "-r", str(root)], cwd=str(root))
+                judge(res, r, "grey", fault, cmd, allowed=(0, 1))
+                res.sigs.add(short_hash(fault, cmd))
+            if k % 2 == 0 and os.path.exists(rb + b"/caf\xe9.gen.py") and open(rb + b"/caf\xe9.gen.py", "rb").read() != b"x = 1\n":
+                res.violation("ignored-file-with-odd-name-annotated", "annotate -r changed a Git-ignored file whose name is not UTF-8")
+            res.cell("names:" + fault)
         elif kind == "batch":
             # many unreadable files in one invocation: the status stays the documented one however many fail
             d = root / "batch"
